@@ -88,10 +88,35 @@ func (p Point) PointCross(op Point) Point {
 	if x == (r3.Vector{}) {
 		// The only result that makes sense mathematically is to return zero, but
 		// we find it more convenient to return an arbitrary orthogonal vector.
-		return Point{p.Ortho()}
+		if p == op {
+			return Point{p.Ortho()}
+		}
+		// p and op are distinct but exactly (anti)parallel: use the cross product
+		// under the same symbolic perturbation as RobustSign, so that turning
+		// angles stay consistent with RobustSign.
+		if p.Cmp(op.Vector) < 0 {
+			return Point{symbolicCrossProdSorted(p.Vector, op.Vector)}
+		}
+		return Point{symbolicCrossProdSorted(op.Vector, p.Vector).Mul(-1)}
 	}
 
 	return Point{x}
+}
+
+// symbolicCrossProdSorted returns the cross product of a and b (a < b
+// lexicographically, a x b == 0) after the symbolic perturbations used by
+// RobustSign: the coefficient of the largest perturbation term that does not vanish.
+func symbolicCrossProdSorted(a, b r3.Vector) r3.Vector {
+	if b.X != 0 || b.Y != 0 { // da.Z
+		return r3.Vector{X: -b.Y, Y: b.X, Z: 0}
+	}
+	if b.Z != 0 { // da.Y
+		return r3.Vector{X: b.Z, Y: 0, Z: 0}
+	}
+	if a.X != 0 || a.Y != 0 { // db.Z
+		return r3.Vector{X: a.Y, Y: -a.X, Z: 0}
+	}
+	return r3.Vector{X: 1, Y: 0, Z: 0}
 }
 
 // OrderedCCW returns true if the edges OA, OB, and OC are encountered in that
